@@ -15,7 +15,7 @@ pub const DEF: PropDef = PropDef {
     run,
     replay,
     level: "exploration",
-    rule: "model-based op sequences on a stateful pair and on a stateless pair, both behind a recording cipher: writes (valid, undersized buffer, oversize payload), deliveries (any earlier message of the direction, garbage, undersized payload buffer), set_receiving_nonce(v) and (hook) verif_set_sending_nonce(v) with v in {0,1,2^32-1,2^32,2^64-4..2^64-1,random}, auto and manual rekeys of either direction on either side, deliveries of messages longer than 65535 bytes and shorter than a tag; scenarios: counters started 2 below EVERY power of two 2^1..2^63 and 3 writes/reads across it; 300 messages written and read in a row from several bases (the COUNT crosses 256); 70 / 300 / 1000 consecutive failing reads and failing writes before the genuine ones; stateless reads/writes with the same nonce set. Model: per side a sending and a receiving counter starting at 0, +1 per successful op, unchanged otherwise, never wrapping; at 2^64-1 a well-formed read/write returns Err(State(Exhausted)) and the counter stays; a delivery is accepted iff its nonce equals the receiver's counter and the key epochs match. Log oracle: the cipher is never called with nonce 2^64-1 outside a bracketed rekey, and the nonce it sees equals the model counter for every op. Checked after every step on both sides. Non-trivial = a sequence in which a counter was placed within 3 of 2^64-1 or an op failed and a later one succeeded; distinct by (config, ops)",
+    rule: "model-based op sequences on a stateful pair and on a stateless pair, three quarters of them behind a recording cipher and one quarter on the built-in primitives as they are: writes (valid, undersized buffer, oversize payload), deliveries (any earlier message of the direction, garbage, undersized payload buffer), set_receiving_nonce(v) and (hook) verif_set_sending_nonce(v) with v in {0,1,2^32-1,2^32,2^64-4..2^64-1,random}, auto and manual rekeys of either direction on either side, deliveries of messages longer than 65535 bytes and shorter than a tag; scenarios: counters started 2 below EVERY power of two 2^1..2^63 and 3 writes/reads across it; 300 messages written and read in a row from several bases (the COUNT crosses 256); 70 / 300 / 1000 consecutive failing reads and failing writes before the genuine ones; stateless reads/writes with the same nonce set. Model: per side a sending and a receiving counter starting at 0, +1 per successful op, unchanged otherwise, never wrapping; at 2^64-1 a well-formed read/write returns Err(State(Exhausted)) and the counter stays; a delivery is accepted iff its nonce equals the receiver's counter and the key epochs match. Log oracle: the cipher is never called with nonce 2^64-1 outside a bracketed rekey, and the nonce it sees equals the model counter for every op. Checked after every step on both sides. Non-trivial = a sequence in which a counter was placed within 3 of 2^64-1 or an op failed and a later one succeeded; distinct by (config, ops)",
     technique: "model-based testing with an instrumented (recording) cipher; enumeration of boundary scenarios + proptest sequences with shrinking; uses the verif-hooks sending-nonce setter",
     assumptions: &["the sending counter is placed next to the boundary through the guarded hook TransportState::verif_set_sending_nonce"],
     panic_is_violation: false,
@@ -87,9 +87,13 @@ fn oracle(c: &Case, acc: &mut Acc) -> CaseResult {
     let name = format!("{} [{:?}] stateless={}", spec.name_string(), c.backend, c.stateless);
     let oneway = spec.pattern().is_oneway();
     let log = Log::default();
+    // three sessions out of four run behind the recording cipher; the fourth uses the built-in
+    // primitives as they are (what a backend does in its own overrides of provided trait methods
+    // is then in play): the counter model, the getters and the exhaustion error are judged in both
+    let instrumented = c.seed % 4 != 0;
     let rng = SharedRng::seeded(c.seed, false);
-    let mut hi = build_snow(&spec, true, &EpOverrides::default(), &Instr { rng: Some(rng.clone()), log: Some(log.clone()) }).map_err(|x| Fail::setup(e(&x)))?;
-    let mut hr = build_snow(&spec, false, &EpOverrides::default(), &Instr { rng: Some(rng), log: Some(log.clone()) }).map_err(|x| Fail::setup(e(&x)))?;
+    let mut hi = build_snow(&spec, true, &EpOverrides::default(), &Instr { rng: Some(rng.clone()), log: if instrumented { Some(log.clone()) } else { None } }).map_err(|x| Fail::setup(e(&x)))?;
+    let mut hr = build_snow(&spec, false, &EpOverrides::default(), &Instr { rng: Some(rng), log: if instrumented { Some(log.clone()) } else { None } }).map_err(|x| Fail::setup(e(&x)))?;
     for k in 0..spec.n_msgs() {
         let (w, r) = if k % 2 == 0 { (&mut hi, &mut hr) } else { (&mut hr, &mut hi) };
         let m = hs_write(w, b"hs", 65535).map_err(|x| Fail::setup(e(&x)))?;
@@ -138,7 +142,7 @@ fn oracle(c: &Case, acc: &mut Acc) -> CaseResult {
                         seen_fail = true;
                     } else {
                         let l = res.map_err(|x| Fail::new(format!("{ctx}: valid write failed: {x:?}")))?;
-                        ensure!(matches!(&evs[..], [Ev::Enc { nonce, .. }] if *nonce == n), "{ctx}: cipher saw {evs:?}, expected one encryption under nonce {n}");
+                        ensure!(!instrumented || matches!(&evs[..], [Ev::Enc { nonce, .. }] if *nonce == n), "{ctx}: cipher saw {evs:?}, expected one encryption under nonce {n}");
                         sent[s].push(Rec { nonce: n, epoch: out_epoch[s], payload, bytes: buf[..l].to_vec() });
                         fail_then_ok |= seen_fail;
                     }
@@ -183,7 +187,7 @@ fn oracle(c: &Case, acc: &mut Acc) -> CaseResult {
                         // every nonce the cipher is handed is the model counter; a read that fails may
                         // also be refused before the cipher is reached
                         ensure!(
-                            matches!(&evs[..], [Ev::Dec { nonce, .. }] if *nonce == n) || (res.is_err() && evs.is_empty()),
+                            !instrumented || matches!(&evs[..], [Ev::Dec { nonce, .. }] if *nonce == n) || (res.is_err() && evs.is_empty()),
                             "{ctx}: cipher saw {evs:?}, expected one decryption under nonce {n}"
                         );
                         let should = *kind == 0 && rec.nonce == n && rec.epoch == in_epoch[r];
@@ -281,7 +285,7 @@ fn oracle(c: &Case, acc: &mut Acc) -> CaseResult {
                         seen_fail = true;
                     } else {
                         let l = res.map_err(|x| Fail::new(format!("{ctx}: valid write failed: {x:?}")))?;
-                        ensure!(matches!(&evs[..], [Ev::Enc { nonce, .. }] if *nonce == n), "{ctx}: cipher saw {evs:?}, expected one encryption under nonce {n}");
+                        ensure!(!instrumented || matches!(&evs[..], [Ev::Enc { nonce, .. }] if *nonce == n), "{ctx}: cipher saw {evs:?}, expected one encryption under nonce {n}");
                         sent[s].push(Rec { nonce: n, epoch: out_epoch[s], payload, bytes: buf[..l].to_vec() });
                         sn[s] += 1;
                         fail_then_ok |= seen_fail;
@@ -327,7 +331,7 @@ fn oracle(c: &Case, acc: &mut Acc) -> CaseResult {
                         // every nonce the cipher is handed is the model counter; a read that fails may
                         // also be refused before the cipher is reached
                         ensure!(
-                            matches!(&evs[..], [Ev::Dec { nonce, .. }] if *nonce == n) || (res.is_err() && evs.is_empty()),
+                            !instrumented || matches!(&evs[..], [Ev::Dec { nonce, .. }] if *nonce == n) || (res.is_err() && evs.is_empty()),
                             "{ctx}: cipher saw {evs:?}, expected one decryption under nonce {n}"
                         );
                         let should = *kind == 0 && rec.nonce == n && rec.epoch == in_epoch[r];
